@@ -564,7 +564,7 @@ pub fn run_case(c: &C14Case, facts: &mut C14Facts) -> Result<(), Violation> {
     alphabet.push(KeyCode::A);
   }
   let mut src = Src::new(&c.history_tape);
-  let steps = gen_history(&mut src, &alphabet, &HistOpts { max_events: 20, max_held: 5, raw_percent: 10, release_all_percent: 5 });
+  let steps = gen_history(&mut src, &alphabet, &HistOpts { max_events: 20, max_held: 5, raw_percent: 10, release_all_percent: 5, marathon_taps: 0 });
   facts.events_driven = steps.len();
   let r = std::panic::catch_unwind(std::panic::AssertUnwindSafe(|| {
     for s in &steps {
@@ -728,6 +728,7 @@ pub fn check(cfg: &RunCfg, findings: &Findings) -> Report {
     rep.violations.push((v2, path));
     return rep;
   }
+  crate::fuzzstage::stage(&mut rep, cfg, "fz_loader", 14, 1_600_000, 1500);
   rep.assumptions = vec![
     "panics are observed with catch_unwind; a process abort would end the check with a non-zero status that is not 1 and is reported as an infrastructure failure".to_string(),
     "the mapper is driven directly; the event loop's handling of negative repeat delays is outside this property (see DESIGN.md, limits)".to_string(),
